@@ -644,6 +644,9 @@ def sync_jobs(
         exclude = []
     elif not isinstance(exclude, list):
         exclude = [exclude]
+    else:
+        # Do not modify the list provided by the caller.
+        exclude = list(exclude)
     exclude.append(src.FN_STATE_POINT)
     if doc_sync != DocSync.COPY:
         exclude.append(src.FN_DOCUMENT)
